@@ -118,9 +118,22 @@ def run(E: Engine, rep: Report, tier: str) -> dict:
     us = norm(u[0].value).replace(" ", "") if u else ""
     fx, rx = linear_factor(u[0].value) if u else (None, ())
     rep.check(fx == 1 and rx == ("1 - 3 * cosine ** 2", "1/(dist ** 3)", "self._device.interaction_coeff_xy"), "PAIR", "make_xy_term|C3(1-3cos^2)/R^3", "U = C3 (1 - 3 cos^2) / R^3 on a non-Hermitian product (no 1/2)", f"XY coefficient is {us}", E.where(xy))
+    # cos(theta) = (r . B) / (|r| |B|): both norms divide
+    cs_ = [n for n in own_nodes(xy) if isinstance(n, ast.Assign) and norm(n.targets[0]) == "cosine"]
+    den = set()
+    norms = {}
+    for n in own_nodes(xy):
+        if isinstance(n, ast.Assign) and isinstance(n.value, ast.Call) and (dotted(n.value.func) or "").endswith("linalg.norm") and isinstance(n.targets[0], ast.Name):
+            norms[n.targets[0].id] = norm(n.value.args[0])
+    for c_ in cs_:
+        for sub in ast.walk(c_.value):
+            if isinstance(sub, ast.BinOp) and isinstance(sub.op, ast.Div):
+                den |= {x.id for x in ast.walk(sub.right) if isinstance(x, ast.Name)}
+    normed = {norms[d] for d in den if d in norms}
+    rep.check(bool(cs_) and {"diff_vector", "mag_field"} <= normed, "PAIR", "make_xy_term|cosine-normalised-by-both-norms", "cos(theta) = r.B / (|r| |B|)", f"the angle cosine is divided by the norms of {sorted(normed)} only: it must be normalised by both the inter-atomic distance and the magnetic-field norm", E.where(xy))
     rep.check(any("('sigma_ud', [q1]), ('sigma_du', [q2])" in norm(n) for n in own_nodes(xy)), "PAIR", "make_xy_term|exchange-operator", "sigma_ud(q1) sigma_du(q2) (+ h.c. by symmetrisation)", "the XY exchange operator changed", E.where(xy))
     rep.floor("SIB", 4)
-    rep.floor("PAIR", 5)
+    rep.floor("PAIR", 6)
 
     # -------------------------------------------------------------- GUARD
     mit = ch.nested.get("make_interaction_term")
